@@ -16,7 +16,7 @@ pub const SPEC: PropSpec = PropSpec {
 	assumptions: &["8 MiB main-thread stack; documented panicking accessors (root(), Index) are not part of the statement and are not called", "CPU bound: > 5 s for one construction call on an input <= 1 MiB is reported"],
 	cases: (50_000_000, 4_000_000_000),
 	secs: (30, 900),
-	required: &["texts:random-json", "texts:near-miss", "texts:deep-nesting", "texts:long-chain", "graphs:random", "graphs:dangling-key", "graphs:unnamed-cycle", "graphs:huge", "frozen_and_used"],
+	required: &["texts:random-json", "texts:near-miss", "texts:deep-nesting", "texts:long-chain", "texts:record-fan-out", "graphs:random", "graphs:dangling-key", "graphs:unnamed-cycle", "graphs:huge", "frozen_and_used"],
 	run_case,
 	once: None,
 	panics_are_violations: true,
@@ -310,6 +310,36 @@ pub fn run_case(ctx: &mut Ctx, case_seed: u64) {
 				1 => format!("{}\"int\"{}", "{\"type\":\"array\",\"items\":".repeat(depth), "}".repeat(depth)),
 				_ => format!("{}{}", "{\"type\":{\"type\":".repeat(depth / 2), "\"int\""),
 			};
+			exercise_text(ctx, case_seed, &t);
+		}
+		7 if rng.chance(1, 3) => {
+			// levels of records where each record holds the next level's record in several fields (no union, no array in
+			// between): a DAG with 1 path per level when walked with memory of what was seen, width^levels paths without
+			let levels = *rng.pick(&[12usize, 24, 40, 80, 300]);
+			let width = 2 + rng.below(2);
+			let forward = rng.coin();
+			ctx.count("texts:record-fan-out");
+			if isolated(ctx, case_seed, format!("texts:record-fan-out levels={levels} width={width} forward={forward}")) {
+				return;
+			}
+			let mut defs: Vec<String> = (0..levels)
+				.map(|i| {
+					let fields: Vec<String> = (0..width)
+						.map(|k| {
+							if i + 1 < levels {
+								format!("{{\"name\":\"f{k}\",\"type\":\"L{}\"}}", i + 1)
+							} else {
+								format!("{{\"name\":\"f{k}\",\"type\":\"int\"}}")
+							}
+						})
+						.collect();
+					format!("{{\"type\":\"record\",\"name\":\"L{i}\",\"fields\":[{}]}}", fields.join(","))
+				})
+				.collect();
+			if !forward {
+				defs.reverse();
+			}
+			let t = format!("[{}]", defs.join(","));
 			exercise_text(ctx, case_seed, &t);
 		}
 		7 => {
